@@ -75,7 +75,7 @@ func lmValidators(c *Ctx, lm *ssa.Function) []lmValidator {
 		if !ok {
 			continue
 		}
-		g := call.Call.StaticCallee()
+		g := ir.Callee(call.Call)
 		if g == nil || !isOwn(c.P, g) || g.Blocks == nil || lmLoadLike(c, g) {
 			continue
 		}
@@ -604,7 +604,7 @@ func (an *lmAn) cl0(v ssa.Value, fr *lmFrame) *lmVal {
 		if !ok {
 			return lmUnk
 		}
-		if g := call.Call.StaticCallee(); g != nil {
+		if g := ir.Callee(call.Call); g != nil {
 			if x.Index == 0 && lmLoadLike(an.c, g) {
 				hasM, hasR := false, false
 				for _, a := range call.Call.Args {
@@ -1036,7 +1036,7 @@ func (an *lmAn) walk(fr *lmFrame) {
 					an.cands = append(an.cands, cd)
 				}
 			case *ssa.Call:
-				if g := x.Call.StaticCallee(); g != nil {
+				if g := ir.Callee(x.Call); g != nil {
 					if lmLoadLike(an.c, g) {
 						hasM, hasR := false, false
 						for _, a := range x.Call.Args {
